@@ -265,7 +265,8 @@ def run(ctx) -> None:
     RW = ctx.rule("C18/watcher-recheck", "ProcessWatcher.run calls the termination callback only under a stop-flag test made after the polling loop", floor=1)
     RO = ctx.rule("C18/shell-options", "ShellCommandTrick: the drop-during-process test dominates the spawn; wait_for_process reaches process.wait()", floor=2)
 
-    monitor_discipline(ctx, RM, only_classes={"EventDebouncer"})
+    # the quiet-period wait is re-armed by every notify: each queued event must be announced, not only the first of a batch
+    monitor_discipline(ctx, RM, only_classes={"EventDebouncer"}, announce_every_addition=True)
 
     cfg = ThreadCfg(P, follow_attrs=False, no_inline={"join", "start"})
     cfg.freeze_locals = True
